@@ -1586,6 +1586,12 @@ class Explorer:
             if self.max_paths is not None and self.stats.paths >= self.max_paths:
                 self.truncated = True
                 break
+            if getattr(self, 'stop_after_violations', None) and self.stats.violated >= self.stop_after_violations:
+                # hundreds of failed obligations in one task: the tree under test is broken for good; the
+                # counterexamples recorded so far go to replay, exploring the rest adds nothing
+                # (truncation only matters for the verdict when nothing reproduces)
+                self.truncated = True
+                break
         return self
 
     def _sample_witness(self, c):
